@@ -12,4 +12,6 @@ PROP = {'level': 'proof',
  'trusted': ['hooks in /repo', 'deterministic lab'],
  'assumptions': [],
  'shards': 16,
- 'facts': ['requestClass', 'dedupAtomic']}
+ 'facts': ['requestClass', 'dedupAtomic'],
+ 'race': True,
+ 'retry': True}
